@@ -133,6 +133,7 @@ def run(chk, tier):
     finally:
         shutil.rmtree(wd, ignore_errors=True)
     chk.extra["call_site_events"] = len(callers)
+    collapsed_call_site(chk)
     B = 20000
     indomain = 0
     for k in range(0, len(events), B):
@@ -165,12 +166,46 @@ def run(chk, tier):
     chk.assumptions += ["numpy.dtype(...).name names the dtype", "Big.tla byte arithmetic"]
 
 
+def collapsed_call_site(chk):
+    """the third call site the property names: collapsed() sizes its working arrays with fit_dtype - the output by the
+    precedence values, the per-row tally by the number of columns. Neither dtype is visible from outside, only what a
+    too narrow one does (wrap-around or OverflowError): wide receivers and precedence values on both sides of every
+    dtype boundary, judged by the dense-array contract (Trace_IIndex)."""
+    import random
+    import numpy
+    from catii.iindexes import iindex, column_stack
+    from ..drivers import index as ix
+    rnd = random.Random(core.SEED + 19)
+    rec = ix.Recorder(iindex, column_stack)
+    precs = [[1, 0, -1], [1, 0, 2], [127, 0], [128, 0], [0, 128], [255, 1], [256, 1], [1, 256], [-128, 0], [-129, 0], [0, -129],
+             [32767, 0], [32768, -1], [65535, 0], [65536, 0], [-32769, 5], [2 ** 31 - 1, 0], [2 ** 31, 0], [-1, 2 ** 31]]
+    for ncols in (1, 2, 127, 128, 129, 255, 256, 257):
+        for prec in precs:
+            for common in (prec[0], prec[-1], 7):
+                U = sorted(set(prec + [common, 7]))
+                dense = numpy.array([[rnd.choice(U) if rnd.random() < 0.3 else common for _ in range(ncols)] for _ in range(3)], dtype=object)
+                rec.collapsed(ix.canonical(iindex, dense, common), prec)
+    ser = [e for e in (ix.serialise(ev) for ev in rec.events) if e is not None]
+    res, verdicts = core.validate_batch("Trace_IIndex.tla", "Trace_IIndex.cfg", ser, timeout=3000)
+    chk.add_tlc("L3 trace validation of collapsed() call sites (Trace_IIndex)", res)
+    for ev in ser:
+        for v in verdicts[ev["tid"]]:
+            if v != "ok" and not v.startswith(("X00", "C17")):
+                raw = next(e for e in rec.events if e["tid"] == ev["tid"])
+                chk.violation("call-site:collapsed:%s" % v, "%s -> %s %s" % (str(rec.meta[ev["tid"]])[:300], v, raw.get("excmsg", "")),
+                              {"call_site": "collapsed", "columns": ev["recv"]["shape"][1], "precedence": ev["args"]["precedence"], "clause": v})
+    chk.extra["collapsed_call_site_events"] = len(ser)
+    chk.evaluations += len(ser)
+
+
 def replay(chk, path):
     import json
     catii = build.load_catii("plain")
     import numpy
     from catii.iindexes import fit_dtype
     r = json.load(open(path))["replay"]
+    if r.get("call_site") == "collapsed":
+        return collapsed_call_site(chk)
     name = numpy.dtype(fit_dtype(r["max"], r["min"])).name
     ev = [{"tid": 1, "mx": zbig(r["max"]), "mn": zbig(r["min"]), "dtype": name, "exc": False}]
     res, verdicts = core.validate_batch("Trace_FitDtype.tla", "Trace_FitDtype.cfg", ev, workers=1)
